@@ -35,6 +35,8 @@ struct G<'a> {
     sigs: Vec<Sig>,
     key: i32,
     budget: i64,
+    /// stay inside the fragment `lean/RotoV/Model/LowerS.lean` models (for the MIR comparison)
+    frag: bool,
 }
 
 const LET_TYS: [T; 10] = [T::I, T::I, T::I, T::B, T::B, T::O, T::E, T::R, T::L, T::S];
@@ -164,7 +166,7 @@ impl G<'_> {
             let b = self.blk(t, d1, true);
             return E::Ite(Box::new(c), a, b);
         }
-        if shared < 15 && t != T::V {
+        if shared < 15 && t != T::V && !self.frag {
             return self.match_(t, d1);
         }
         if shared < 23 {
@@ -211,7 +213,7 @@ impl G<'_> {
                     }
                     E::Try(Box::new(o))
                 }
-                77..=90 => {
+                77..=90 if !self.frag => {
                     let r = self.expr(T::R, d1);
                     E::Field(Box::new(r), self.p.below(2) as usize)
                 }
@@ -329,7 +331,7 @@ impl G<'_> {
                 let b = self.blk(T::U, d, false);
                 E::If1(Box::new(c), b)
             }
-            70..=79 => {
+            70..=79 if !self.frag => {
                 let mut l = self.expr(T::L, d);
                 if matches!(&l, E::List(v) if v.is_empty()) {
                     // `for x in []` leaves the element type open while the body is checked
@@ -416,7 +418,7 @@ impl G<'_> {
             }
             match self.p.below(100) {
                 0..=34 => {
-                    let ty = *self.p.pick(&LET_TYS);
+                    let ty = if self.frag { *self.p.pick(&[T::I, T::I, T::B]) } else { *self.p.pick(&LET_TYS) };
                     let e = self.expr(ty, d);
                     let x = self.fresh(ty, true);
                     stmts.push(S::Let(x, e));
@@ -424,7 +426,7 @@ impl G<'_> {
                 35..=64 => stmts.push(S::Do(self.expr(T::U, d))),
                 65..=72 => {
                     // an expression statement whose value is discarded
-                    let ty = *self.p.pick(&[T::I, T::B, T::O, T::S]);
+                    let ty = if self.frag { *self.p.pick(&[T::I, T::B]) } else { *self.p.pick(&[T::I, T::B, T::O, T::S]) };
                     stmts.push(S::Do(self.expr(ty, d)));
                 }
                 73..=84 if d > 0 => {
@@ -488,19 +490,21 @@ fn open_none(e: &E) -> bool {
     }
 }
 
-pub fn gen_program(p: &mut Prng) -> Generated {
+/// `frag`: only the constructs of the structured lowering model (scalars, host calls,
+/// operators, `&&`/`||`, `if`, blocks, assignments, `while`, `return`), one function.
+pub fn gen_program(p: &mut Prng, frag: bool) -> Generated {
     let depth = 2 + p.below(3) as u32;
-    let nhelpers = match p.below(10) {
+    let nhelpers = if frag { 0 } else { match p.below(10) {
         0..=4 => 0,
         5..=7 => 1,
         _ => 2,
-    };
-    let mut g = G { p, var_tys: vec![], annotated: vec![], scope: vec![], ret: T::I, sigs: vec![], key: 0, budget: 0 };
+    } };
+    let mut g = G { p, var_tys: vec![], annotated: vec![], scope: vec![], ret: T::I, sigs: vec![], key: 0, budget: 0, frag };
     let mut fns = vec![];
     for i in 0..=nhelpers {
         let is_main = i == nhelpers;
         let (ptys, ret) = if is_main {
-            (vec![T::I, T::I, T::B], *g.p.pick(&[T::I, T::I, T::I, T::B, T::U, T::S, T::O, T::O, T::V, T::V]))
+            (vec![T::I, T::I, T::B], if frag { *g.p.pick(&[T::I, T::I, T::B, T::U]) } else { *g.p.pick(&[T::I, T::I, T::I, T::B, T::U, T::S, T::O, T::O, T::V, T::V]) })
         } else {
             let n = g.p.below(3);
             ((0..n).map(|_| *g.p.pick(&[T::I, T::I, T::B])).collect(), *g.p.pick(&[T::I, T::I, T::B, T::U, T::O]))
